@@ -141,7 +141,10 @@ fn build(input: &str, copies: usize, k: usize, r: &mut Rng, c: &Ctxt) -> Option<
                     auth(&good_cred, &signed, PLACEHOLDER)
                 } else {
                     // the other copies: SigV4 headers that cannot verify, or headers of another scheme altogether
-                    match r.below(8) {
+                    match r.below(10) {
+                        // (obs-text in a copy does not make it any less a copy: it still counts, first or not)
+                        8 => "Bearer caf\u{e9}.def.ghi".to_string(),
+                        9 => auth(&c.cred("AKIA\u{e9}KEY", t_good, &cfg.region), &signed, BAD_SIG),
                         0 | 1 => auth(&good_cred, &signed, BAD_SIG),
                         2 => auth(&c.cred("AKIAOTHERKEY", t_good, &cfg.region), &signed, BAD_SIG),
                         3 => "Basic Zm9vOmJhcg==".to_string(),
@@ -241,9 +244,15 @@ fn build(input: &str, copies: usize, k: usize, r: &mut Rng, c: &Ctxt) -> Option<
                 let v: Vec<u8> = if i == k {
                     t_good.compact().into_bytes()
                 } else {
-                    match r.below(4) {
+                    match r.below(5) {
                         0 => Vec::new(),
                         1 => b"  ".to_vec(),
+                        // (a byte ≥ 0x80 makes it no timestamp, not no header)
+                        2 => {
+                            let mut v = t_other.compact().into_bytes();
+                            v.insert(4, 0xe9);
+                            v
+                        }
                         _ => t_other.plus_s(i as i64).compact().into_bytes(),
                     }
                 };
@@ -263,9 +272,15 @@ fn build(input: &str, copies: usize, k: usize, r: &mut Rng, c: &Ctxt) -> Option<
                 let v: Vec<u8> = if i == k {
                     t_good.compact().into_bytes()
                 } else {
-                    match r.below(4) {
+                    match r.below(5) {
                         0 => Vec::new(),
                         1 => b"  ".to_vec(),
+                        // (a byte ≥ 0x80 makes it no timestamp, not no header)
+                        2 => {
+                            let mut v = t_other.compact().into_bytes();
+                            v.insert(4, 0xe9);
+                            v
+                        }
                         _ => t_other.plus_s(i as i64).compact().into_bytes(),
                     }
                 };
@@ -296,8 +311,8 @@ fn build(input: &str, copies: usize, k: usize, r: &mut Rng, c: &Ctxt) -> Option<
                 (t_other, t_good)
             };
             let x_val: Vec<u8> = if k == 1 && r.chance(1, 3) {
-                // a blank X-Amz-Date is still the X-Amz-Date header: Date must not take over
-                b" ".to_vec()
+                // a blank X-Amz-Date — or one with a byte ≥ 0x80 in it — is still the X-Amz-Date header: Date must not take over
+                r.pick_bytes(&[b" ", b"", b"2015\xe90830T123600Z", b"\xa0"]).to_vec()
             } else {
                 tx.compact().into_bytes()
             };
